@@ -170,11 +170,13 @@ func (c05) outage(sc core.Scenario, r *core.R) {
 	core.Log.Note("h.loss", kind)
 
 	// calls issued inside the outage (client parked at the first redial)
-	var uIn, rIn *Outcome
+	var uIn, rIn, nIn *Outcome
 	if core.WaitCh(gate.Reached, core.Grace) {
 		t1, t2 := Tok("u"), Tok("r")
 		uIn = Go(t1, func() (string, error) { return cl.Echo(ctx, t1, "") })
 		rIn = Go(t2, func() (string, error) { return cl.EchoR(ctx, t2, "") })
+		t3 := Tok("n")
+		nIn = Go(t3, func() (string, error) { return "", cl.NoteR(ctx, t3) }) // a notification through a retry-tagged field
 		uIn.Wait(500 * time.Millisecond)
 	} else {
 		r.Inconclusive("client never started to redial within the grace period (kind %s)", kind)
@@ -229,6 +231,17 @@ func (c05) outage(sc core.Scenario, r *core.R) {
 			r.Violate("retry-hang", "retry-tagged call %s did not return after recovery", c.Tok)
 		} else if c.Err != nil || c.Val != svc.Reply(c.Tok) {
 			r.Violate("retry-surfaced-error", "retry-tagged call %s returned (%q, %v) instead of its genuine result", c.Tok, c.Val, c.Err)
+		}
+	}
+	if nIn != nil {
+		if !nIn.Wait(bound + 2*time.Second) {
+			r.Violate("retry-hang", "a notification sent through a retry-tagged field during the outage never returned")
+		}
+		for _, f := range env.Px.Frames() {
+			if f.Dir == wsproxy.C2S && f.Msg != nil && f.Msg.Method == "S.Note" && f.Msg.ID != "" && f.Msg.ID != "null" {
+				r.Violate("notification-with-id", "a notification (notify-tagged field that is also retry-tagged) went out as a call with id %s after a failed first attempt", f.Msg.ID)
+				break
+			}
 		}
 	}
 	// (3) untagged in-flight call surfaces the connection error
